@@ -448,7 +448,7 @@ pub fn filler(k: usize, salt: usize) -> Vec<u8> {
 /// legal in a name (no white space, no leading '-'): a comma, a dot, '=', '#', and names that look like
 /// file names (a sample may be called `iso1.fa`; a name is never a path).
 pub fn set_sample_name(i: usize) -> String {
-    const NAMES: [&str; 10] = ["s0", "iso_B,rep2", "x.1", "A-b", "iso1.fa", "k=5", "reads_1.fastq.gz", "m#7", "s10", "s2"];
+    const NAMES: [&str; 11] = ["s0", "iso_B,rep2", "#2", "6925_1#7", "x.1", "A-b", "iso1.fa", "k=5", "reads_1.fastq.gz", "s10", "s2"];
     if i < NAMES.len() {
         NAMES[i].to_string()
     } else {
